@@ -31,7 +31,7 @@ def prepare(build, tier):
 
 
 def budget(tier):
-    return (200, 16) if tier == "quick" else (4000, 16)
+    return (350, 16) if tier == "quick" else (5000, 16)
 
 
 SHAPES = {
@@ -225,9 +225,71 @@ def guard_cases():
         yield {"kind": "guard", "target": target, "exist": exist, "mt": mt, "bang": bang, "cmd": cmd, "dirty": dirty}
 
 
+def run_ghist(env, c):
+    """histories: external modification of the edited file, writes to other paths, edits, plain and forced writes of the own file.
+    The guard state must only be refreshed by a write of the file itself."""
+    d = env.fresh()
+    runner.write_file(d, "f", b"l1\nl2\n")
+    os.utime(os.path.join(d, "f"), (1000000000, 1000000000))
+    text = [b"l1", b"l2"]
+    disk = b"l1\nl2\n"
+    newer = False
+    script = "rs a\nx\n.\n"
+    expect = []
+    ext_n = 0
+    recorded_now = False
+    for i, st_ in enumerate(c["steps"]):
+        if st_ == "ext":
+            ext_n += 1
+            # newer than what the editor recorded, but - while the editor has not written the file itself - older than "now":
+            # a guard state wrongly refreshed from the clock or from another file's time then lets the write through
+            script += "rx a sh -c 'echo ext%d >> f; touch -d %s-01-%02d f'\n" % (i, "2040" if recorded_now else "2020", min(28, ext_n))
+            disk += b"ext%d\n" % i
+            newer = True
+        elif st_ == "wother":
+            script += "w! o%d\n" % (i % 2)
+        elif st_ == "wother_plain":
+            script += "w p%d\n" % i
+        elif st_ == "edit":
+            script += "$a\nt%d\n.\n" % i
+            text.append(b"t%d" % i)
+        elif st_ in ("wown", "wownf"):
+            script += "ec @@A%d@@\nw%s\nec @@B%d@@\nrx a cp f snap%d\n" % (i, "!" if st_ == "wownf" else "", i, i)
+            refused = newer and st_ == "wown"
+            if not refused:
+                disk = b"".join(l + b"\n" for l in text)
+                newer = False
+                recorded_now = True
+            expect.append((i, refused, disk))
+    r = runner.run_editor(env.paths["vi"], ["-s", "-e", "f"], script.encode() + runner.EX_TRAILER, d, want_stats=False)
+    nt = any(e[1] for e in expect)
+    cl = ["ghist", "refusal_expected" if nt else "no_refusal"]
+    if r.timeout:
+        return Outcome(True, False, cl + ["timeout"], inconclusive=True)
+    if r.crashed():
+        return Outcome(False, nt, cl, detail={"why": "editor crashed", "sig": r.signature()})
+    out = r.out.decode("utf-8", "replace")
+    for i, refused, want in expect:
+        m = re.search(r"@@A%d@@(.*?)@@B%d@@" % (i, i), out, re.S)
+        seg = m.group(1) if m else ""
+        got = runner.read_file(d, "snap%d" % i)
+        if refused:
+            if got != want:
+                return Outcome(False, nt, cl, detail={"why": "step %d: a plain :w replaced the file although it was modified from outside since the editor "
+                                                             "read or wrote it" % i, "steps": c["steps"], "file": got, "expected_untouched": want})
+            if "write failed" not in seg:
+                return Outcome(False, nt, cl, detail={"why": "step %d: refusal not reported" % i, "steps": c["steps"]})
+        else:
+            if got != want:
+                return Outcome(False, nt, cl, detail={"why": "step %d: allowed write did not produce the buffer's lines" % i, "steps": c["steps"], "file": got, "want": want})
+    return Outcome(True, nt, cl, key=",".join(c["steps"]))
+
+
 def run_case(env, c):
     if c["kind"] == "guard":
         return run_guard(env, c)
+    if c["kind"] == "ghist":
+        return run_ghist(env, c)
     return check_fault(env, c)
 
 
@@ -240,8 +302,12 @@ def rnd_case(draw):
             "plan": [list(p) for p in sorted(set(draw(st.lists(plan_item, min_size=2, max_size=4))))]}
 
 
+ghist_case = st.lists(st.sampled_from(["ext", "ext", "wother", "wother", "wother_plain", "edit", "edit", "wown", "wown", "wownf"]), min_size=2, max_size=10).map(
+    lambda l: {"kind": "ghist", "steps": l})
+
+
 def strategy(tier):
-    return rnd_case()
+    return st.one_of(rnd_case(), ghist_case)
 
 
 def extra(env, tier, seed):
